@@ -21,6 +21,7 @@ import (
 type rsCase struct {
 	Rules     []interface{}     `json:"rules"`
 	Text      string            `json:"text"`
+	Texts     []string          `json:"resources,omitempty"`
 	SoloTexts map[string]string `json:"solo_texts"`
 	Init      *facts.State      `json:"init"`
 	MaxCycle  uint64            `json:"max_cycle"`
@@ -33,7 +34,7 @@ type rsCase struct {
 }
 
 func toRSCase(c *val.Case) *rsCase {
-	return &rsCase{Rules: gast.EncodeRules(c.Rules), Text: c.Text, SoloTexts: c.SoloTexts, Init: c.Init, MaxCycle: c.MaxCycle,
+	return &rsCase{Rules: gast.EncodeRules(c.Rules), Text: c.Text, Texts: c.Texts, SoloTexts: c.SoloTexts, Init: c.Init, MaxCycle: c.MaxCycle,
 		ErrOnFail: c.ErrOnFail, ViaGRB: c.ViaGRB, Listeners: c.Listeners, FailAt: c.ProbeFailAt, FailMode: int(c.ProbeMode)}
 }
 
@@ -42,7 +43,7 @@ func fromRSCase(r *rsCase) (*val.Case, error) {
 	if err != nil {
 		return nil, err
 	}
-	return &val.Case{Rules: rules, Text: r.Text, SoloTexts: r.SoloTexts, Init: r.Init, MaxCycle: r.MaxCycle, ErrOnFail: r.ErrOnFail,
+	return &val.Case{Rules: rules, Text: r.Text, Texts: r.Texts, SoloTexts: r.SoloTexts, Init: r.Init, MaxCycle: r.MaxCycle, ErrOnFail: r.ErrOnFail,
 		ViaGRB: r.ViaGRB, Listeners: r.Listeners, ProbeFailAt: r.FailAt, ProbeMode: facts.FailMode(r.FailMode)}, nil
 }
 
@@ -65,6 +66,7 @@ func genRSCase(rt *rapid.T, cfg rsGenCfg) (*val.Case, *gen.RuleSet) {
 	// text: rules in a drawn order, each rendered with legal variation
 	order := rapid.Permutation(indexes(len(rs.Rules))).Draw(rt, "rule_order")
 	var b strings.Builder
+	var parts []string
 	for _, i := range order {
 		p := gast.NewPrinter()
 		if cfg.Vary {
@@ -72,10 +74,22 @@ func genRSCase(rt *rapid.T, cfg rsGenCfg) (*val.Case, *gen.RuleSet) {
 			p.Vary = true
 		}
 		p.Rule(rs.Rules[i])
-		b.WriteString(p.String())
-		b.WriteString("\n")
+		t := p.String() + "\n"
+		parts = append(parts, t)
+		b.WriteString(t)
 	}
 	c.Text = b.String()
+	// half of the multi-rule sets are built from several resources, one after the other (a knowledge
+	// base is usually assembled that way; the working memory is re-indexed after every resource)
+	if len(parts) >= 2 && rapid.Bool().Draw(rt, "several_resources") {
+		cut := rapid.IntRange(1, len(parts)-1).Draw(rt, "resource_cut")
+		c.Texts = []string{strings.Join(parts[:cut], ""), strings.Join(parts[cut:], "")}
+		if len(parts)-cut >= 2 && rapid.Bool().Draw(rt, "three_resources") {
+			cut2 := rapid.IntRange(cut+1, len(parts)-1).Draw(rt, "resource_cut2")
+			c.Texts = []string{strings.Join(parts[:cut], ""), strings.Join(parts[cut:cut2], ""), strings.Join(parts[cut2:], "")}
+		}
+		rs.Feat["built_from_several_resources"]++
+	}
 	for _, r := range rs.Rules {
 		c.SoloTexts[r.Name] = gast.RuleString(r)
 	}
